@@ -117,7 +117,30 @@ func buildHandler(cfg *config.Config, lb *loadbalancer.LoadBalancer) (http.Handl
 	// Add request context middleware
 	handler = logging.RequestContextMiddleware(cfg.Logging)(handler)
 
+	// End-to-end handler timeout (server.timeouts.handler, default 30s)
+	handlerTimeout := time.Duration(cfg.Server.Timeouts.Handler) * time.Second
+	if handlerTimeout == 0 {
+		handlerTimeout = 30 * time.Second // Default: requests don't hang indefinitely
+	}
+	handler = withHandlerTimeout(handler, handlerTimeout)
+
 	return handler, nil
+}
+
+// withHandlerTimeout bounds the whole exchange: when the deadline passes the request
+// context expires, which makes the reverse proxy give up on a backend that hangs or stops
+// sending mid-body (backend_read only covers the wait for the response header). Upgraded
+// connections (WebSocket) live as long as both ends want and are left alone.
+func withHandlerTimeout(next http.Handler, timeout time.Duration) http.Handler {
+	return http.HandlerFunc(func(w http.ResponseWriter, r *http.Request) {
+		if r.Header.Get("Upgrade") != "" {
+			next.ServeHTTP(w, r)
+			return
+		}
+		ctx, cancel := context.WithTimeout(r.Context(), timeout)
+		defer cancel()
+		next.ServeHTTP(w, r.WithContext(ctx))
+	})
 }
 
 // createHTTPServer creates and configures the main HTTP server
